@@ -248,6 +248,9 @@ pub struct ValueCase {
     pub seed: u64,
     /// for malformed variants: cut the reply after this many bytes and let the solver die
     pub cut: Option<usize>,
+    /// read the value term through `parse_expr` with a symbol table in which symbols named like
+    /// the term's let variables (`a!1`, `d!2`, ...) are declared: a let binding shadows them
+    pub declared_clash: bool,
 }
 
 fn rand_bits(rng: &mut Rng, w: u32) -> String {
@@ -325,6 +328,7 @@ impl ValueCase {
             benign: true,
             seed: rng.next_u64(),
             cut: None,
+            declared_clash: false,
         }
     }
 
@@ -420,6 +424,7 @@ impl ValueCase {
             "shadow": self.shadow, "hex": self.hex, "lets": self.lets,
             "layout_seed": format!("{:#x}", self.layout_seed), "multiline": self.multiline,
             "benign_transport": self.benign, "seed": format!("{:#x}", self.seed), "cut": self.cut,
+            "declared_clash": self.declared_clash,
             "reply_text": self.reply_txt(), "sort": self.sort_txt()})
     }
 
@@ -446,6 +451,7 @@ impl ValueCase {
             benign: v["benign_transport"].as_bool().unwrap_or(true),
             seed: hx("seed")?,
             cut: v["cut"].as_u64().map(|x| x as usize),
+            declared_clash: v["declared_clash"].as_bool().unwrap_or(false),
         })
     }
 
@@ -491,7 +497,64 @@ enum GotValue {
 }
 
 /// drives `get_smt_value` (declare, check-sat, get-value) against a scripted solver
+fn got_of(v: baa::Value, probe_indices: &[String]) -> GotValue {
+    match v {
+        baa::Value::BitVec(b) => GotValue::Bv(b.width(), b.to_bit_str()),
+        baa::Value::Array(a) => {
+            let iw = a.index_width();
+            let sample = probe_indices
+                .iter()
+                .map(|i| {
+                    let idx = baa::BitVecValue::from_bit_str(i).unwrap();
+                    (i.clone(), a.select(&idx).to_bit_str())
+                })
+                .collect();
+            GotValue::Arr {
+                iw,
+                dw: a.data_width(),
+                sample,
+            }
+        }
+    }
+}
+
+/// reads the value term with `parse_expr` under a symbol table that declares symbols with the
+/// names of the term's let variables (same sorts, so a reader that resolves the name to the
+/// declared symbol still builds a well-typed term). The term is closed: the expression read must
+/// not mention any of them.
+fn run_value_case_declared(case: &ValueCase, probe_indices: &[String]) -> Outcome<GotValue> {
+    guarded(|| {
+        let mut ctx = Context::default();
+        let w = |x: u32| if x == 0 { 1 } else { x };
+        let mut st: FxHashMap<String, patronus::expr::ExprRef> = FxHashMap::default();
+        for n in 1..=8 {
+            if let Some(iw) = case.index {
+                let a = ctx.array_symbol(&format!("a!{n}"), w(iw), w(case.width));
+                st.insert(format!("a!{n}"), a);
+            }
+            let d = ctx.bv_symbol(&format!("d!{n}"), w(case.width));
+            st.insert(format!("d!{n}"), d);
+        }
+        let e = patronus::smt::parse_expr(&mut ctx, &st, case.value_txt().as_bytes()).map_err(|e| format!("{e} [{e:?}]"))?;
+        let mut free = false;
+        patronus::expr::traversal::bottom_up(&ctx, e, |c, x, _: &[()]| {
+            if c[x].is_symbol() {
+                free = true;
+            }
+        });
+        if free {
+            use patronus::expr::SerializableIrNode;
+            return Err(format!("FREE-SYMBOL: the closed value term was read as `{}`", e.serialize_to_str(&ctx)));
+        }
+        let v = patronus::expr::eval_expr(&ctx, &FxHashMap::default(), e);
+        Ok(got_of(v, probe_indices))
+    })
+}
+
 fn run_value_case(case: &ValueCase, probe_indices: &[String]) -> Outcome<GotValue> {
+    if case.declared_clash && case.cut.is_none() {
+        return run_value_case_declared(case, probe_indices);
+    }
     let st = canned_world(
         case.seed,
         vec!["sat\n".to_string(), case.reply_txt()],
@@ -620,6 +683,12 @@ fn judge_value(case: &ValueCase, acc: &mut Acc) -> Option<Violation> {
                 }
                 bad.map(|b| viol("C14/b", "WrongValue", "array", format!("{b}: {detail_ctx}")))
             }
+            Outcome::Err(e) if e.starts_with("FREE-SYMBOL") => Some(viol(
+                "C14/b",
+                "WrongValue",
+                "let-variable-resolved-to-declared-symbol",
+                format!("{e}; symbols named like its let variables are declared, and a let binding shadows them: {detail_ctx}"),
+            )),
             Outcome::Err(e) => {
                 let site = if case.lets == 2 {
                     "multi-binding-let"
@@ -1187,6 +1256,16 @@ impl Property for C14 {
             }
             if let Some(v) = judge_value(&case, acc) {
                 return Some((v, case.to_json()));
+            }
+            // the same term read with symbols declared under the names of its let variables
+            if case.lets != 0 && !case.entries.is_empty() {
+                let mut c = case.clone();
+                c.declared_clash = true;
+                acc.evaluations += 1;
+                acc.count("probe.value_let_names_also_declared", 1);
+                if let Some(v) = judge_value(&c, acc) {
+                    return Some((v, c.to_json()));
+                }
             }
             // (c) through the transport: cut the same reply and let the solver die
             let full = case.reply_txt();
